@@ -30,7 +30,8 @@ def gen_cases(ctx):
                 npre = r.choice([p + 1, 2 * p + 3, 5 * p + 7, r.randint(1, 200)])
                 nsuf = need + r.randint(2, p + 6)
                 if bars:
-                    pre = bar_stream(r, npre, r.choice(["walk", "segments", "gaps"]), p=p)
+                    # rep 1: a grid prefix (exactly equal neighbouring typical prices with volume: neutral bars entering the ring)
+                    pre = bar_stream(r, npre, "grid" if rep % 3 == 1 else r.choice(["walk", "segments", "gaps"]), p=p)
                     suf = bar_stream(r, nsuf, r.choice(["walk", "segments", "gaps", "grid"]), p=p)
                     if rep % 2 == 0:
                         pre = [tuple(v * 1e6 for v in b[:4]) + (b[4],) if r.random() < 0.2 else b for b in pre]
